@@ -27,6 +27,8 @@ def instances(tier):
         add(7, 1, 1, mode, 'object with a symbolic 1-byte key%s and 1-byte string value' % (' (identifier)' if mode < 2 else ''))
         if mode >= 2: add(7, 2, 0, mode, 'object with every 2-byte key')
         add(8, 0, 0, mode, 'nested object/array/empty containers')
+        for i in (0, 1, 3, 4, 6):
+            add(9, i, 0, mode, 'object and array holding boundary double #%d (exponent and plain forms) followed by further items' % i)
     out.append({'entry': 'h_roundtrip', 'params': [0, 0, 0, 2], 'opts': {'timeout_ms': 200000}, 'bound': 'every int with |x| < 100000, JSON'})
     return out
 
